@@ -64,6 +64,31 @@ let handle kind a =
       let (rs, s) = bw_run maxbuf (parse_frames a.(4)) (parse_bops a.(2))
                       { sbytes = []; sscript = parse_script a.(1); scalls = O } in
       Some (fmt_sink (fmt_results rs) s)
+  | "mt" ->
+      (* mt pool script ops seed frames lifo: the multithreaded writer; ops W<n> / F, then finish() *)
+      let p = nat_of_int (int_of_string a.(0)) in
+      let mops = List.map (fun o -> match o with
+        | BWriteAll n -> MWriteAll n
+        | BFlush -> MFlush
+        | _ -> failwith "mop") (parse_bops a.(2)) in
+      (match mt_model p (nat_of_int 65495) (parse_frames a.(4)) (a.(5) = "1") mops
+               { sbytes = []; sscript = parse_script a.(1); scalls = O } with
+       | Some (r, s) -> Some (fmt_sink (fmt_res r) s)
+       | None -> Some "stuck")
+  | "fob" ->
+      (* fob fmt ending seed script ops frames: a format writer over the BGZF writer; ops = the
+         BGZF-level calls of each explicit operation (';' between operations, "-" = no call) *)
+      let ops = List.map (fun o -> if o = "-" then [] else parse_bops o) (split_on ';' a.(4)) in
+      let (rs, s) = fob_run (nat_of_int 65495) (parse_frames a.(5)) ops
+                      { sbytes = []; sscript = parse_script a.(3); scalls = O } in
+      Some (fmt_sink (fmt_results rs) s)
+  | "cram" ->
+      (* cram seed script ops: ops = buffer lengths per explicit operation; content is opaque, the
+         observation carries the number of bytes accepted *)
+      let ops = List.map (fun o -> if o = "-" then [] else
+                  List.map (fun t -> nat_of_int (int_of_string t)) (split_on ',' o)) (split_on ';' a.(2)) in
+      let (rs, s) = cram_run ops { sbytes = []; sscript = parse_script a.(1); scalls = O } in
+      Some (Printf.sprintf "%s|calls=%d|len=%d" (fmt_results rs) (int_of_nat s.scalls) (List.length s.sbytes))
   | _ -> None
 
 let () = run_driver handle
